@@ -514,6 +514,16 @@ func asiHazard(t *Tok) bool {
 	return false
 }
 
+// afterPostfixUpdate: the value of a postfix `++`/`--` cannot be called, indexed
+// or tagged, so after a line break a `(`, `[` or backtick is an offending token
+// and ASI applies: `x = a++ <LF> (b)` is two statements.
+func afterPostfixUpdate(prev, next *Tok) bool {
+	if prev == nil || !prev.PostfixOp {
+		return false
+	}
+	return next.Kind == Template || (next.Kind == Punct && (next.Text == "(" || next.Text == "["))
+}
+
 var commentPool = []string{"c", " note", " TODO: x", "", " a b c ", " let x = 1;", " }", " if (", " 'q' \"d\" `b`", " // nested", " /* not block */", "\t tab", " ünï"}
 
 func (r *renderer) randGap(nlOK bool, must bool) string {
@@ -598,7 +608,7 @@ func Render(ch Chooser, toks []*Tok, opt Options) string {
 					if ch.Intn(2, "asi") == 1 {
 						t.Rendered = ""
 					}
-				case (!asiHazard(next) || (opt.SmartASI && (next.Text == "(" || next.Text == "["))) && !opt.NoNewlines:
+				case (!asiHazard(next) || afterPostfixUpdate(prev, next) || (opt.SmartASI && (next.Text == "(" || next.Text == "["))) && !opt.NoNewlines:
 					if ch.Intn(2, "asi") == 1 {
 						t.Rendered = ""
 						pendingNL = true
